@@ -196,7 +196,14 @@ structure RObj where
   phases : List Nat
   pkg : List Nat
   mw : Vec
+  /-- `ReactionSystem` only: the bases its member `Reaction` objects have *now* (the system keeps
+  references to them, and `member.basis = …` may have been used since the system was built) -/
+  memberBases : List Basis := []
   deriving Repr
+
+/-- `ReactionSystem._reaction` re-checks at every call that each member still has the system's basis
+(`RuntimeError('not all reactions have the same basis')`) -/
+def RObj.basesOk (o : RObj) : Bool := o.memberBases.all (· == o.basis)
 
 def RObj.nRows (o : RObj) : Nat := if o.phases.isEmpty then 1 else o.phases.length
 
@@ -210,9 +217,11 @@ inductive Material where
 
 /-- react a flattened array of the object's own shape and run the feasibility step -/
 def RObj.core (o : RObj) (tol : Rat) (flat : Vec) : Except Err Vec :=
-  if (o.kind.rxns.all fun rx => rx.nu.length == flat.length) then
-    feasibility tol (o.kind.react flat)
-  else .error .shape
+  if o.basesOk then
+    if (o.kind.rxns.all fun rx => rx.nu.length == flat.length) then
+      feasibility tol (o.kind.react flat)
+    else .error .shape
+  else .error .basisMix
 
 /-- a NumPy array: react the entries as they are (whatever the basis of the object) -/
 def RObj.callArray (o : RObj) (tol : Rat) (rows : List Vec) : Except Err (List Vec) :=
@@ -281,9 +290,11 @@ def removedBy (eps : Rat) (v : Vec) : Vec :=
   v.map fun x => if negligible eps s x then -x else 0
 
 def RObj.coreForce (o : RObj) (eps : Rat) (flat : Vec) : Except Err Vec :=
-  if (o.kind.rxns.all fun rx => rx.nu.length == flat.length) then
-    .ok (removeNegligible eps (o.kind.react flat))
-  else .error .shape
+  if o.basesOk then
+    if (o.kind.rxns.all fun rx => rx.nu.length == flat.length) then
+      .ok (removeNegligible eps (o.kind.react flat))
+    else .error .shape
+  else .error .basisMix
 
 def RObj.forceArray (o : RObj) (eps : Rat) (rows : List Vec) : Except Err (List Vec) :=
   (o.coreForce eps rows.flatten).map (chunk (rows.headD []).length rows.length)
